@@ -292,7 +292,8 @@ func (vr *variableResolver) resolve(ctx *ExecutionContext) (*Value, error) {
 		for _, part := range vr.parts {
 			switch v := part.subscript.(type) {
 			case *nodeFilteredVariable:
-				item, err := v.resolver.Evaluate(ctx)
+				// the item with its filter chain, e.g. [name|upper, 3|add:1]
+				item, err := v.Evaluate(ctx)
 				if err != nil {
 					return nil, err
 				}
